@@ -283,7 +283,7 @@ def simple_body(fnode):
     return params, defaults, ret
 
 
-def inline_calls(e, R, mod, depth=3, class_q=None, scope=None):
+def inline_calls(e, R, mod, depth=3, class_q=None, scope=None, keep=()):
     """replace calls to straight-line repository helpers (module-level functions, and `self.m()` methods /
     `self.p` properties of class_q) by their return expression"""
     if depth <= 0:
@@ -298,7 +298,7 @@ def inline_calls(e, R, mod, depth=3, class_q=None, scope=None):
                 if f is not None and f.is_property and f.name.startswith("_"):
                     sb = simple_body(ast.FunctionDef(name=f.node.name, args=f.node.args, body=f.node.body, decorator_list=[], returns=None, type_params=[]))
                     if sb is not None:
-                        return inline_calls(sb[2], R, f.mod, depth - 1, class_q)
+                        return inline_calls(sb[2], R, f.mod, depth - 1, class_q, None, keep)
             return n
 
         def visit_Call(self, n):
@@ -324,8 +324,8 @@ def inline_calls(e, R, mod, depth=3, class_q=None, scope=None):
                             binding[p] = defaults[p]
                         else:
                             return n
-                return inline_calls(inline(ret, binding, depth=1), R, f.mod, depth - 1, class_q, scope)
-            if not isinstance(n.func, ast.Name):
+                return inline_calls(inline(ret, binding, depth=1), R, f.mod, depth - 1, class_q, scope, keep)
+            if not isinstance(n.func, ast.Name) or n.func.id in keep:
                 return n
             q = R.chase(mod, n.func.id)
             f = R.funcs.get(q) if q else None
@@ -354,7 +354,7 @@ def inline_calls(e, R, mod, depth=3, class_q=None, scope=None):
                     else:
                         return n
             out = inline(ret, binding, depth=1)
-            return inline_calls(out, R, f.mod, depth - 1, class_q, scope)
+            return inline_calls(out, R, f.mod, depth - 1, class_q, scope, keep)
 
     return Inl().visit(copy.deepcopy(e))
 
